@@ -10,7 +10,7 @@ from . import lincommon as lc
 
 PROP = "C10"
 HOSTILE = ('scale', 'special')
-MONITORS = ("WF", "SPEC")
+MONITORS = ("WF", "SPEC", "FORM")
 REQUIRED_MONITORS = ("WF",)
 ANCHORS = [("conditional.py", "ConditionalGaussianPDF.set_y"),
            ("conditional.py", "ConditionalIdentityGaussianPDF.set_y"),
